@@ -7,7 +7,7 @@ from vf import Case
 from checklib import PropCheck
 import checklib
 
-CLI_TARGET = os.path.join(vf.BUILD, 'cli_target')
+CLI_TARGET = os.environ.get('VERIF_CLI_TARGET') or os.path.join(vf.BUILD, 'cli_target')      # (override: tools/coverage_cli.sh)
 CLI_BIN = os.path.join(CLI_TARGET, 'debug', 'phylotree')
 
 def preorder_ids(t):
@@ -21,13 +21,14 @@ class Check(PropCheck):
     pid = 'C18'
     tol = 1e-9
     rule = ('the real binary target/debug/phylotree built from the working tree, run on generated tree files in a scratch directory: '
-            'stats, matrix (-s, -o), distance (-o), compare (several trees), collapse (thresholds, -e, -o; also a short length on the root), '
+            'stats (also several files), matrix (-s, -o), distance (-o), compare (several trees), collapse (thresholds, -e, -v, -o; also a short length on the root), '
+            'rescale (also several trees into an output directory), documented refusals (remove of an internal name, distance over a missing length), '
             'remove (one or several tips, -o), rescale (-o), resolve (-o); stdout / output files parsed and compared with the model run on the '
             'same trees (the model is the independent computation) and with the contract of each transform; non-trivial: tree has >= 3 leaves')
 
     def build_cli(self):
         r = vf.sh('cargo build --offline --bin phylotree --manifest-path /repo/Cargo.toml --target-dir %s' % CLI_TARGET, timeout=3000,
-                  env={'RUSTFLAGS': ''})
+                  env={'RUSTFLAGS': os.environ.get('VERIF_CLI_RUSTFLAGS', '')})
         return r.returncode == 0 and os.path.exists(CLI_BIN), r.stdout
 
     def gen_cases(self):
@@ -71,6 +72,21 @@ class Check(PropCheck):
                 if kd == 'stats' and rng.random() < 0.06:
                     nd.length = None       # (distance / matrix on a tree with a missing length is refused by the tool with an error exit: not a report)
             self.jobs.append({'cid': 'n%d' % j, 'kind': kd, 'tree': t, 'mode': 'exact', 'rng': rng.randint(0, 2 ** 30), 'use_o': rng.random() < 0.3})
+        # documented refusals: the tool must stop with an error (and print no tree / no table row) instead of printing a wrong answer
+        for j in range(9 if self.tier == 'quick' else 120):
+            n = rng.randint(4, 8)
+            t = gen.rand_tree(rng, n, 'exact', p_multi=0.0, internal_names=1.0, names=['t%d' % i for i in range(n)])
+            self.jobs.append({'cid': 'x%d' % j, 'kind': 'refuse', 'sub': ['remove_internal', 'distance_missing', 'rescale_multi_no_o'][j % 3], 'tree': t,
+                              'mode': 'exact', 'rng': rng.randint(0, 2 ** 30), 'use_o': False})
+        # several input files at once: `stats f1 f2 ..` (one row per file, a filename column) and `rescale f t1 t2 -o dir` (one output file per input)
+        for j in range(16 if self.tier == 'quick' else 300):
+            kd = ['stats_multi', 'rescale_multi'][j % 2]
+            trees = []
+            for q in range(rng.randint(2, 3)):
+                n = rng.randint(3, 9)
+                trees.append(gen.rand_tree(rng, n, 'exact', p_multi=rng.choice([0, 0.3]) if kd == 'stats_multi' else 0.0, internal_names=rng.choice([0, 0.5]),
+                                           names=['t%d' % i for i in range(n)]))
+            self.jobs.append({'cid': 'm%d' % j, 'kind': kd, 'tree': trees[0], 'trees': trees, 'mode': 'exact', 'rng': rng.randint(0, 2 ** 30), 'use_o': False})
         return []      # the generic machinery is not used: run() is overridden
 
     # ------------------------------------------------------------------------------------------------
@@ -98,6 +114,37 @@ class Check(PropCheck):
             ftext = text
         open(tf, 'w').write(ftext)
         kind = job['kind']
+        if kind in ('stats_multi', 'rescale_multi'):
+            return self.run_multi(job, d, rng)
+        if kind == 'refuse':
+            sub = job['sub']
+            if sub == 'remove_internal':
+                inner = [x for x in t.nodes()[1:] if x.children and x.name]
+                args = ['remove', tf, inner[0].name if inner else 'no_such_tip']
+            elif sub == 'distance_missing':
+                t2 = t.copy(); t2.nodes()[1].length = None
+                open(tf, 'w').write(gen.to_newick(t2) + '\n'); text = gen.to_newick(t2)
+                lv = t2.leaves()
+                args = ['distance', tf, lv[0].name, lv[-1].name]
+            else:
+                tf2 = os.path.join(d, 'tree2.nwk'); open(tf2, 'w').write(text + '\n')
+                args = ['rescale', '2.0', tf, tf2]
+            try:
+                r = subprocess.run([CLI_BIN] + args, stdout=subprocess.PIPE, stderr=subprocess.PIPE, timeout=60, cwd=d)
+                rc, so, se = r.returncode, r.stdout.decode('utf-8', 'replace'), r.stderr.decode('utf-8', 'replace')
+            except subprocess.TimeoutExpired:
+                rc, so, se = -9, '', 'timeout'
+            why = None
+            data_lines = [x for x in so.strip().split('\n') if x.strip() and not x.startswith('Seq1')]
+            if data_lines:
+                why = '%s: the request must be refused, but something was printed: %r' % (sub, so[:200])
+            elif sub != 'rescale_multi_no_o' and rc == 0:
+                why = '%s: the request must be refused with an error exit status, got 0' % sub
+            elif rc == -9:
+                why = '%s: timeout' % sub
+            elif not se.strip():
+                why = '%s: refused silently (nothing on stderr)' % sub
+            return {'job': job, 'rc': rc, 'out': so, 'err': se, 'args': args, 'mops': [], 'info': {'why': why}, 'text': text, 'dir': d, 'use_o': False}
         args = []; mops = [gen.parse_op(text)]
         outf = os.path.join(d, 'out.txt')
         use_o = job['use_o'] and kind in ('matrix', 'distance', 'collapse', 'remove', 'rescale', 'resolve')
@@ -171,7 +218,9 @@ class Check(PropCheck):
                 else:
                     thr = math.nextafter(l, -math.inf) if l > 0 else l
             ex = rng.random() < 0.5
-            args = ['collapse', tf, repr(thr)] + (['-e'] if ex else [])
+            verbose = rng.random() < 0.3
+            args = ['collapse', tf, repr(thr)] + (['-e'] if ex else []) + (['-v'] if verbose else [])
+            info['verbose'] = verbose
             info['thr'] = thr; info['ex'] = ex
             mops += ['cli_collapse %s %d' % (vf.enc_len(thr), 1 if ex else 0), 'to_newick']
         elif kind == 'remove':
@@ -202,6 +251,52 @@ class Check(PropCheck):
             out = open(outf).read() if os.path.exists(outf) else None
             info['stdout_when_o'] = so
         return {'job': job, 'rc': rc, 'out': out, 'err': se, 'args': args, 'mops': mops, 'info': info, 'text': text, 'dir': d, 'use_o': use_o}
+
+    def run_multi(self, job, d, rng):
+        """one CLI call on several files; returned as one result per file, judged like the single-file subcommand"""
+        kind = job['kind']; trees = job['trees']
+        files = []
+        for q, t in enumerate(trees):
+            f = os.path.join(d, 'in%d.nwk' % q); open(f, 'w').write(gen.to_newick(t) + '\n'); files.append(f)
+        outdir = os.path.join(d, 'outdir')
+        if kind == 'stats_multi':
+            args = ['stats'] + files
+        else:
+            fac = rng.choice([2.0, 0.5, 0.25, 4.0])
+            args = ['rescale', repr(fac)] + files + ['-o', outdir]
+        try:
+            r = subprocess.run([CLI_BIN] + args, stdout=subprocess.PIPE, stderr=subprocess.PIPE, timeout=60, cwd=d)
+            rc, so, se = r.returncode, r.stdout.decode('utf-8', 'replace'), r.stderr.decode('utf-8', 'replace')
+        except subprocess.TimeoutExpired:
+            rc, so, se = -9, '', 'timeout'
+        res = []
+        lines = so.strip('\n').split('\n')
+        for q, t in enumerate(trees):
+            text = gen.to_newick(t)
+            sub = dict(job); sub['cid'] = '%s_%d' % (job['cid'], q); sub['tree'] = t
+            info = {}
+            if kind == 'stats_multi':
+                sub['kind'] = 'stats'
+                out = None
+                hdr = 'filename\theight\tdiameter\tnodes\ttips\trooted\tbinary\tncherries\tcolless\tsackin'
+                if rc == 0 and len(lines) == 1 + len(trees) and lines[0] == hdr:
+                    cols = lines[1 + q].split('\t')
+                    if cols and cols[0] == '"%s"' % files[q]:
+                        out = hdr.split('\t', 1)[1] + '\n' + '\t'.join(cols[1:]) + '\n'
+                mops = [gen.parse_op(text), 'height', 'diameter', 'size', 'n_leaves', 'is_rooted', 'is_binary', 'cherries', 'colless', 'sackin']
+                use_o = False
+                if out is None and rc == 0:
+                    rc2 = 'layout'; se2 = 'stats on several files: expected a filename header and one row per file in argument order, got %r' % so[:300]
+                    res.append({'job': sub, 'rc': rc2, 'out': '', 'err': se2, 'args': args, 'mops': mops, 'info': info, 'text': text, 'dir': d, 'use_o': use_o}); continue
+            else:
+                sub['kind'] = 'rescale'
+                of = os.path.join(outdir, os.path.basename(files[q]))
+                out = open(of).read() if os.path.exists(of) else None
+                info = {'f': fac, 'stdout_when_o': so}
+                mops = [gen.parse_op(text), 'rescale ' + vf.enc_len(fac), 'to_newick']
+                use_o = True
+            res.append({'job': sub, 'rc': rc, 'out': out, 'err': se, 'args': args, 'mops': mops, 'info': info, 'text': text, 'dir': d, 'use_o': use_o})
+        return res
 
     def judge(self, res, model_lines):
         """returns a reason string when the CLI output violates the property, else None"""
@@ -315,7 +410,10 @@ class Check(PropCheck):
             shutil.rmtree(self.workdir, ignore_errors=True)
             os.makedirs(self.workdir, exist_ok=True)
             with ThreadPoolExecutor(max_workers=vf.NCPU) as ex:
-                results = list(ex.map(lambda j: self.run_job(j, self.workdir), self.jobs))
+                raw = list(ex.map(lambda j: self.run_job(j, self.workdir), self.jobs))
+            results = []
+            for r in raw:
+                results.extend(r if isinstance(r, list) else [r])
         # second stage for transforms: feed the printed tree back through the model / harness
         cases = []
         for res in results:
@@ -340,7 +438,9 @@ class Check(PropCheck):
             # the library (harness) and the model must agree on the auxiliary computation
             c = [x for x in cases if x.cid == cid][0]
             d = vf.compare_case(c, il, ml, None if res['job']['mode'] == 'exact' else 1e-9)
-            if kind in ('stats', 'matrix', 'distance', 'compare'):
+            if kind == 'refuse':
+                reason = res['info']['why']
+            elif kind in ('stats', 'matrix', 'distance', 'compare'):
                 reason = self.judge(res, ml)
             else:
                 reason = self.judge_transform(res, ml, il)
@@ -432,6 +532,12 @@ class Check(PropCheck):
         if kind == 'collapse':
             thr = info['thr']; ex = info['ex']
             t = job['tree']
+            if info.get('verbose'):
+                # -v: "Print the number of collapsed branches at the end" (on stderr), nothing else changes
+                want_n = sum(1 for i, nd in enumerate(t.nodes()) if i != 0 and nd.length is not None and nd.length < thr and not (ex and not nd.children))
+                last = [x for x in res['err'].strip().split('\n') if x.strip()]
+                if not last or last[-1].strip() != str(want_n):
+                    return 'collapse -v: reported %r collapsed branches, %d branches are shorter than the threshold' % (last[-1] if last else None, want_n)
             exp = t.copy()
             for i, nd in enumerate(exp.nodes()):
                 if nd.length is not None and i != 0 and nd.length < thr and not (ex and not nd.children):
